@@ -565,3 +565,6 @@ mutant("C14-M21", "C14", "R14f", "per-year bounds dict created once before the l
 twin("C14-T6", "C14", "fresh dict written as a literal", OP, "TotalSpendConstraint.get_hard_constraint", '            hard_constraints["bounds"][t] = dict()\n', '            hard_constraints["bounds"][t] = {}\n')
 mutant("C08-M20", "C08", "R08d", "characteristic components collected in a set", M, "Population.build", 'includes = [x.strip() for x in characs.at[charac.name, "components"].split(",")]', 'includes = {x.strip() for x in characs.at[charac.name, "components"].split(",")}')
 twin("C08-T6", "C08", "components de-duplicated in order", M, "Population.build", 'includes = [x.strip() for x in characs.at[charac.name, "components"].split(",")]', 'includes = list(dict.fromkeys(x.strip() for x in characs.at[charac.name, "components"].split(",")))')
+mutant("C05-M25", "C05", "R05c", "TimedCompartment.connect: duration-group test negated", M, "TimedCompartment.connect", "        if (isinstance(dest, TimedCompartment) and dest.parameter.name == self.parameter.name) or (isinstance(dest, JunctionCompartment) and dest.duration_group == self.parameter.name):", "        if not ((isinstance(dest, TimedCompartment) and dest.parameter.name == self.parameter.name) or (isinstance(dest, JunctionCompartment) and dest.duration_group == self.parameter.name)):")
+mutant("C05-M26", "C05", "R05c", "JunctionCompartment.connect: duration-group test negated", M, "JunctionCompartment.connect", "        if self.duration_group:", "        if not self.duration_group:")
+mutant("C04-M29", "C04", "R04a", "junction stock not zero-filled at preallocation", M, "JunctionCompartment.preallocate", "        self.vals.fill(0.0)", "        pass")
